@@ -121,3 +121,88 @@ Section DefaultMode.
     - exact (rule_describes_folded A B tpl rc R PW D E1 E2 dFA dFB dE3 RH' RN RCn RCi RCa' RCe).
   Qed.
 End DefaultMode.
+
+(** * the theorem for the reaction's own templates *)
+Lemma default_okb_foldable A B t : pair_wf A B -> default_okb A B t = true -> foldable A /\ foldable B.
+Proof.
+  intros PW OK. unfold default_okb in OK.
+  apply andb_prop in OK. destruct OK as [OK _]. apply andb_prop in OK. destruct OK as [OK _]. apply andb_prop in OK. destruct OK as [OK O3].
+  apply andb_prop in OK. destruct OK as [_ O2].
+  split; apply foldableb_sound; auto; [exact (wf_host_nodup A (pw_A _ _ PW))|exact (wf_host_nodup B (pw_B _ _ PW))].
+Qed.
+
+Section OwnTemplate.
+  Variables (core invert : bool) (G H : hostg).
+  Hypothesis W : pair_wfb G H = true.
+  Let A := if invert then H else G.
+  Let B := if invert then G else H.
+  Let tpl := template core invert G H.
+  Hypothesis OK : default_okb A B tpl = true.
+  Hypothesis CC : core = true -> centre_carries (its_construct G H) = true.
+  Let PW : pair_wf G H := proj1 (pair_wfb_sound G H W).
+  Let CG : closed G := proj1 (proj2 (pair_wfb_sound G H W)).
+  Let CH : closed H := proj2 (proj2 (pair_wfb_sound G H W)).
+
+  Lemma pair_AB' : pair_wf A B.
+  Proof. unfold A, B. destruct invert; [apply pair_wf_sym|]; exact PW. Qed.
+  Lemma fold_GH : foldable G /\ foldable H.
+  Proof. destruct (default_okb_foldable A B tpl pair_AB' OK) as [FA FB]. unfold A, B in *. destruct invert; auto. Qed.
+
+  Lemma T0_isH u : is_H_i (its_construct G H) u = true -> is_H_h G u = true.
+  Proof.
+    unfold is_H_i, is_H_h. destruct (label (its_construct G H) u) as [a|] eqn:E; [|discriminate].
+    destruct (T0_label G H PW u a E) as [-> I]. destruct (in_ids_label G u I) as [x Ex].
+    unfold its_node, side_tuple; simpl. rewrite Ex. auto.
+  Qed.
+  Lemma NHH' : forall u v x, In (u, v, x) (gedges (its_construct G H)) -> is_hh (its_construct G H) u v = false.
+  Proof.
+    intros u v x I. unfold is_hh. destruct (is_H_i (its_construct G H) u) eqn:Eu; [|reflexivity].
+    destruct (is_H_i (its_construct G H) v) eqn:Ev; [|reflexivity]. exfalso.
+    apply T0_isH in Eu. apply T0_isH in Ev. destruct fold_GH as [FG FH].
+    destruct (construct_edge G H u v x I) as [(o & Io & _)|(o & Io & _)].
+    - destruct (proj2 (FG u Eu) v (proj1 (in_nbrs G u v o Io))) as [K _]. congruence.
+    - rewrite <- (isH_AB G H PW u) in Eu. rewrite <- (isH_AB G H PW v) in Ev.
+      destruct (proj2 (FH u Eu) v (proj1 (in_nbrs H u v o Io))) as [K _]. congruence.
+  Qed.
+
+  Lemma own_describes : describes A B tpl.
+  Proof.
+    pose proof NHH' as NHH.
+    c03 (rc_describes G H) as D1. c03 (construct_describes G H) as D2. c03 (rc_edges_pos G H) as P1. c03 (T0_edges_pos G H) as P2.
+    unfold A, B, tpl, template. destruct invert, core.
+    - apply invert_describes; [exact (pw_A _ _ PW)|exact (pw_B _ _ PW)|exact (D1 (CC eq_refl))|exact P1].
+    - apply invert_describes; [exact (pw_A _ _ PW)|exact (pw_B _ _ PW)|exact D2|exact P2].
+    - exact (D1 (CC eq_refl)).
+    - exact D2.
+  Qed.
+  Lemma closed_AB : closed A /\ closed B.
+  Proof. unfold A, B. destruct invert; auto. Qed.
+
+  (** default mode: the reactor's rule exists, the matcher's pattern is its left side, the identity is a valid match on
+      the substrate and the glued ITS (before _explicit_h re-materialises the migrating hydrogens) decomposes to the
+      pair of implicit-hydrogen forms of the reaction's sides *)
+  Theorem default_identity_glue : mode_E G H = true ->
+    exists rc l r, rule_of core invert G H = Some (rc, l, r) /\ pattern_of l = l /\
+      match_rcb (substrate invert G H) rc (id_map (node_ids (pattern_of l))) = true /\
+      exists T, glue (substrate invert G H) rc (id_map (node_ids (pattern_of l))) = Some T /\
+                regen_exact T (substrate invert G H) (h_to_implicit_host B) = true.
+  Proof.
+    intros ME. destruct closed_AB as [CA CB].
+    destruct (default_rule A B tpl pair_AB' own_describes OK) as (rc & l & r & Es & Ep & El & PW' & D').
+    exists rc, l, r. unfold rule_of. rewrite ME. fold tpl. split; [exact Es|]. split; [exact Ep|].
+    rewrite Ep, El. unfold substrate. fold A. split.
+    - exact (identity_match_rc (h_to_implicit_host A) (h_to_implicit_host B) rc D').
+    - destruct (identity_glue_some (h_to_implicit_host A) (h_to_implicit_host B) rc PW' D') as [T ET]. exists T. split; [exact ET|].
+      exact (regen_exact_true (h_to_implicit_host A) (h_to_implicit_host B) rc PW' D' T ET).
+  Qed.
+End OwnTemplate.
+
+Lemma default_identity_glue_all (core invert : bool) (G H : hostg) :
+  pair_wfb G H = true -> mode_E G H = true ->
+  default_okb (if invert then H else G) (if invert then G else H) (template core invert G H) = true ->
+  (core = true -> centre_carries (its_construct G H) = true) ->
+  exists (rc : its) (l r : molg), rule_of core invert G H = Some (rc, l, r) /\ pattern_of l = l /\
+    match_rcb (substrate invert G H) rc (id_map (node_ids (pattern_of l))) = true /\
+    exists T : its, glue (substrate invert G H) rc (id_map (node_ids (pattern_of l))) = Some T /\
+      regen_exact T (substrate invert G H) (h_to_implicit_host (if invert then G else H)) = true.
+Proof. intros W ME OK CC. exact (default_identity_glue core invert G H W OK CC ME). Qed.
